@@ -1032,7 +1032,30 @@ func runValSlice(c *core.Ctx) {
 				hasLoop = true
 			}
 		})
-		if !hasLoop {
+		// … or as a loop that hands each tag to the tag validator: `for _, tag := range ev.Tags { if !validTag(tag) { return false } }`
+		var perTag *ssa.Call
+		for _, ci := range calls(evValid) {
+			call, isCall := ci.(*ssa.Call)
+			if !isCall || len(call.Call.Args) != 1 || !an.InLoop(call.Block()) {
+				continue
+			}
+			if g := an.StaticCallee(&call.Call); g != nil && P.InModule(g) && an.PathOf(call.Call.Args[0]) == "recv.Tags[*]" {
+				perTag = call
+			}
+		}
+		if perTag != nil {
+			all, whyAll := forAllLoop(perTag.Call.Args[0], perTag)
+			ok, why := impliesFalse(c, evValid, perTag)
+			if !all {
+				why = whyAll
+			}
+			c.Check(all && ok, nil, fname(c, evValid), "field[Tags]", P.Pos(perTag.Pos()), "every tag is handed to the tag validator; a failing tag ⇒ Valid() false", "the per-tag validator does not decide for every tag: "+why)
+			tv := an.StaticCallee(&perTag.Call)
+			fr := an.ConstFrame("len(" + paramPath(tv, 0) + ")")
+			t, _, n, okd := fr.FuncBoolMeaning(tv, 0, nil, nil)
+			c.CountPaths(n)
+			c.Check(okd && t.Equal(an.Range(1, an.PosInf)), nil, fname(c, tv), "domain(len tag)", P.Pos(tv.Pos()), "accepts len(tag) ∈ "+t.String(), "accepts len(tag) ∈ "+t.String()+", want [1,+∞): downstream code reads tag[0]")
+		} else if !hasLoop {
 			c.Bad(nil, fname(c, evValid), "field[Tags]", P.Pos(evValid.Pos()), "Event.Valid does not apply a per-tag validator to all Tags")
 		} else {
 			early := false
